@@ -87,8 +87,15 @@ class Verdicts:
         if self.violations:
             os.makedirs(os.path.join(VERIF, 'replays'), exist_ok=True)
             rp = os.path.join(VERIF, 'replays', '%s-%s-%d.json' % (self.pid, self.tier, os.getpid()))
+            keep, per = [], {}
+            for v in self.violations:          # a few witnesses of every class
+                key = '%s|%s' % (v.get('cls') or v.get('clause') or v.get('kind'),
+                                 ','.join(v.get('clauses') or v.get('fields') or []))
+                per[key] = per.get(key, 0) + 1
+                if per[key] <= 15 and len(keep) < 300:
+                    keep.append(v)
             with open(rp, 'w') as fh:
-                json.dump({'property': self.pid, 'violations': self.violations[:50],
+                json.dump({'property': self.pid, 'violations': keep,
                            'total': len(self.violations)}, fh, indent=1, default=repr)
         for kid, h in sorted(self.known_hits.items()):
             print('KNOWN-FINDING: property=%s %s %s (re-observed %d times, e.g. %s)' % (
